@@ -190,6 +190,9 @@ func (store *Store) transactionQueryContext(qb query.Builder, q GetTransactionsQ
 			}
 			switch address := value.(type) {
 			case string:
+				if err := validateAddressFilter(address); err != nil {
+					return "", nil, err
+				}
 				return filterAccountAddressOnTransactions(address, true, true), nil, nil
 			default:
 				return "", nil, newErrInvalidQuery("unexpected type %T for column 'account'", address)
@@ -201,6 +204,9 @@ func (store *Store) transactionQueryContext(qb query.Builder, q GetTransactionsQ
 			}
 			switch address := value.(type) {
 			case string:
+				if err := validateAddressFilter(address); err != nil {
+					return "", nil, err
+				}
 				return filterAccountAddressOnTransactions(address, true, false), nil, nil
 			default:
 				return "", nil, newErrInvalidQuery("unexpected type %T for column 'source'", address)
@@ -212,6 +218,9 @@ func (store *Store) transactionQueryContext(qb query.Builder, q GetTransactionsQ
 			}
 			switch address := value.(type) {
 			case string:
+				if err := validateAddressFilter(address); err != nil {
+					return "", nil, err
+				}
 				return filterAccountAddressOnTransactions(address, false, true), nil, nil
 			default:
 				return "", nil, newErrInvalidQuery("unexpected type %T for column 'destination'", address)
